@@ -77,3 +77,8 @@ func (a *acc) done(min int, okReason string) {
 		a.c.S.OK(a.rule, key, a.pos, a.fn, fmt.Sprintf("%s (%d paths/sites)", okReason, a.n), true)
 	}
 }
+
+// accKeyless: an accumulator for a clause about a declaration, not a function.
+func (c *Ctx) accKeyless(rule, subject, clause string) *acc {
+	return &acc{c: c, rule: rule, fn: subject, clause: clause}
+}
